@@ -900,7 +900,32 @@ def normalise_post(post):
     return [("post", B(post))]
 
 
-def explore(fn, max_paths=200000, wall_cap=None, want_witness=True):
+def _cvc5_check(smt2, tlimit_ms=3000):
+    """second opinion on one query: 'sat' / 'unsat' / 'unknown' from cvc5 (python wheel) on the SMT-LIB text z3 prints"""
+    try:
+        import cvc5
+    except Exception:  # noqa
+        return "unavailable"
+    try:
+        slv = cvc5.Solver()
+        slv.setOption("tlimit-per", str(tlimit_ms))
+        par = cvc5.InputParser(slv)
+        par.setStringInput(cvc5.InputLanguage.SMT_LIB_2_6, "(set-logic ALL)\n" + smt2, "query")
+        sm = par.getSymbolManager()
+        res = "unknown"
+        while True:
+            c = par.nextCommand()
+            if c.isNull():
+                break
+            o = c.invoke(slv, sm)
+            if c.getCommandName() == "check-sat":
+                res = str(o).strip()
+        return res if res in ("sat", "unsat") else "unknown"
+    except Exception as e:  # noqa
+        return "unknown"
+
+
+def explore(fn, max_paths=200000, wall_cap=None, want_witness=True, crosscheck=0):
     """fn(V) runs real code on proxies and returns the postcondition (see normalise_post) or None (path not
     subject to the claim).  Returns a dict: result in {holds, cex, inconclusive}; paths; reached; stats."""
     global CTX
@@ -943,6 +968,16 @@ def explore(fn, max_paths=200000, wall_cap=None, want_witness=True):
                 r = str(s.check())
                 stats["solver_s"] += time.time() - tq
                 stats[r] = stats.get(r, 0) + 1
+                if crosscheck > 0 and r in ("sat", "unsat"):
+                    # the same query (path condition and negated claims), as printed by z3, decided again by cvc5
+                    crosscheck -= 1
+                    r2 = _cvc5_check(s.to_smt2())
+                    k2 = "cvc5_" + ("agree" if r2 == r else r2 if r2 in ("unknown", "unavailable") else "disagree")
+                    stats[k2] = stats.get(k2, 0) + 1
+                    if k2 == "cvc5_disagree":
+                        s.pop()
+                        return dict(result="error", why="z3 answered %s, cvc5 answered %s on the final query of path %d" % (r, r2, paths), paths=paths,
+                                    reached=reached, stats=stats, wall_s=time.time() - t0)
                 if r == "sat":
                     m = s.model()
                     failed = [n for n, c in claims if z3.is_false(m.eval(c, model_completion=True))]
